@@ -53,6 +53,15 @@ template<class V> void dump(V const& v, std::ostream& os) {
 	};
 	rec(rec, v);
 	if(byidx != units) { os << ",\"units_by_index\":"; jlist(os, byidx); }
+	// an array constructed from the projected view: same extents, element by element
+	{
+		using E = std::decay_t<typename std::decay_t<V>::element_type>;
+		multi::array<E, D> cp(v);
+		std::vector<long> csh, cvals;
+		{ using boost::multi::detail::get; auto sz = cp.sizes(); [&]<std::size_t... K>(std::index_sequence<K...>) { (csh.push_back(static_cast<long>(get<K>(sz))), ...); }(std::make_index_sequence<D>{}); }
+		for(auto const& e : cp.elements()) { cvals.push_back(value_of(e)); }
+		os << ",\"copy_shape\":"; jlist(os, csh); os << ",\"copy_vals\":"; jlist(os, cvals);
+	}
 }
 // lazily transformed views yield values, not references: no units
 template<class V> void dump_values(V const& v, std::ostream& os, bool has_units) {
